@@ -490,3 +490,24 @@ Qed.
 Lemma cidr_rules_see_addresses p u r :
   (In r (p_allow p) \/ In r (p_deny p)) -> r_is_cidr r = true -> ips_seen p u = resolved_addrs u.
 Proof. intros Hin Hc. apply ips_seen_when_needed. exact (cidr_rule_needs_ips p r Hin Hc). Qed.
+
+(** * Where the faithful model of the current code falls short of the property's reading of
+    "deny rules win ... (IP or CIDR)": netip keeps an address written as ::ffff:a.b.c.d as a
+    128-bit address, egress.go unmaps every address before testing it, so an IP/CIDR rule in
+    IPv4-mapped notation matches nothing - not even a target that is literally that address. *)
+Lemma deny_ip_rule_mapped_notation_refuted :
+  exists p u a,
+    p_deny p = [cidr_rule F6 a 128] /\
+    h_literal u = Some {| ip_fam := F6; ip_val := a |} /\
+    check p u = Allow.
+Proof.
+  exists (open_policy [] [cidr_rule F6 (mapped_lo + quad 8 8 8 8) 128]),
+         (mk_hop "http" "::ffff:8.8.8.8" (Some {| ip_fam := F6; ip_val := (mapped_lo + quad 8 8 8 8)%N |}) []),
+         (mapped_lo + quad 8 8 8 8)%N.
+  vm_compute. repeat split.
+Qed.
+
+Lemma mapped_notation_rule_never_hits px i :
+  px_fam px = F6 -> (96 <= px_bits px)%N -> (mapped_lo <= px_addr px <= mapped_hi)%N -> wf_ip i ->
+  cidr_hit px i = false.
+Proof. intros. unfold cidr_hit. apply mapped_notation_rule_is_dead; assumption. Qed.
